@@ -129,6 +129,7 @@ class VSched:
             self.sem[t].release()
             if not self.main.acquire(timeout=(40 if VSched.wall_hits < 2 else 5)):
                 VSched.wall_hits += 1
+                self.abort()
                 raise Deadlock("thread %r did not yield (real blocking call?) at %r" % (t, self.pos.get(t)))
         self.abort()
         raise Deadlock("step budget exceeded")
